@@ -385,7 +385,11 @@ def run(model: RepoModel, rep, tier: str):
             rep.violation("C01.R5", key, PY, asg.node.lineno,
                           "assignment no longer takes the stored value from the lowered `right` child / the target from the `left` child")
 
-    # ------------------------------------------------------------------ R6
+    check_tmp_elimination(model, rep, "C01.R6")
+
+
+def check_tmp_elimination(model: RepoModel, rep, RID: str):
+    """shared by C01 (R6) and C02 (R5): the temporary-eliminating normaliser that runs on python/javascript/php GIR."""
     am = model.module(AVD)
     rt_ = am.functions.get("remove_unnecessary_tmp_variables_in_list")
     if rt_ is None:
@@ -399,13 +403,13 @@ def run(model: RepoModel, rep, tier: str):
             ("has no operator", "get('operator')", "a unary statement `d = -%v` / `d = not %v` is treated as the copy `d = %v`: the operator is lost")):
         key = f"{AVD}::remove_unnecessary_tmp_variables_in_list::the merged statement {what}"
         if needle in txt:
-            rep.holds("C01.R6", key, AVD, first.lineno, f"`{needle}` is a disjunct of the skip test")
+            rep.holds(RID, key, AVD, first.lineno, f"`{needle}` is a disjunct of the skip test")
         else:
-            rep.violation("C01.R6", key, AVD, first.lineno if first is not None else rt_.node.lineno,
+            rep.violation(RID, key, AVD, first.lineno if first is not None else rt_.node.lineno,
                           f"temporary elimination no longer checks that the statement it removes {what}: {why}")
     key = f"{AVD}::remove_unnecessary_tmp_variables_in_list::the copied name is a compiler temporary"
     ok = any("startswith(LIAN_INTERNAL.VARIABLE_DECL_PREF)" in norm(g.test) for g in guards)
-    (rep.holds if ok else rep.violation)("C01.R6", key, AVD, rt_.node.lineno,
+    (rep.holds if ok else rep.violation)(RID, key, AVD, rt_.node.lineno,
                                          "operand.startswith(VARIABLE_DECL_PREF) required" if ok else "user variables are merged away like temporaries")
     key = f"{AVD}::remove_unnecessary_tmp_variables_in_list::the defining statement matches and exactly the copy is deleted"
     merges = [n for n in walk_no_nested(rt_.node) if isinstance(n, ast.If) and any(isinstance(b, ast.Delete) for b in n.body)]
@@ -426,9 +430,11 @@ def run(model: RepoModel, rep, tier: str):
     loop_k = [n for n in walk_no_nested(rt_.node) if isinstance(n, ast.For) and isinstance(n.target, ast.Name) and n.target.id == "k"]
     if loop_k and not isinstance(loop_k[0].body[-1], ast.Break):
         probs.append("the backward search does not stop at the first statement that is neither a declaration nor the definition: it merges across intervening statements")
-    (rep.violation if probs else rep.holds)("C01.R6", key, AVD, rt_.node.lineno,
+    (rep.violation if probs else rep.holds)(RID, key, AVD, rt_.node.lineno,
                                             ("remove_unnecessary_tmp_variables_in_list: " + "; ".join(probs)) if probs else
                                             "prev target == temporary, kind allow-listed, target redirected, `del stmts[i]`, search stops at the first other statement")
+
+
 
 
 # ---------------------------------------------------------------- self-test mutants
